@@ -273,6 +273,24 @@ def gen_case(rng, tier):
     for vi in range(nvar):
         count = nops if rng.random() < 0.75 else rng.choice([0, 1, 2, 3])
         opc = 0x10 + vi
+        if vi > 0 and rng.random() < 0.15 and variants_m[-1].get('sets'):
+            # this variant REUSES the previous variant's `operands` mapping: the same Python object, which the YAML dump
+            # writes as an anchor / alias pair, so the loaded configuration shares one dict between the two variants
+            # (what one variant's constructor does to its configuration must not leak into the other)
+            py, pm = variants_y[-1], variants_m[-1]
+            if 'disallowed' not in pm['sets']:
+                pair = [rng.choice(s_)['id'] for s_ in pm['sets']['sets']]
+                py['operands']['operand_sets']['disallowed_pairs'] = [pair]
+                pm['sets']['disallowed'] = [pair]
+            vy = {'bytecode': {'value': opc, 'size': 8}, 'operands': py['operands']}
+            vm = {'opcode': {'v': opc, 'n': 8, 'little': de == 'little'}}
+            for k in ('count', 'sets', 'specific'):
+                if k in pm:
+                    vm[k] = pm[k]
+            vm['shared'] = True
+            variants_y.append(vy)
+            variants_m.append(vm)
+            continue
         vy = {'bytecode': {'value': opc, 'size': 8}}
         vm = {'opcode': {'v': opc, 'n': 8, 'little': de == 'little'}}
         if rng.random() < 0.15 and count > 0:
@@ -357,6 +375,10 @@ def gen_case(rng, tier):
             vm = rng.choice(targets)
             if vm.get('sets') and (not vm.get('specific') or rng.random() < 0.6):
                 alts = [rng.choice(s_) for s_ in vm['sets']['sets']]
+                if vm['sets'].get('disallowed') and rng.random() < 0.4:
+                    # aim at a disallowed combination: it must be skipped (by every variant that lists it)
+                    ids = vm['sets']['disallowed'][0]
+                    alts = [next((m for m in s_ if m['id'] == i), rng.choice(s_)) for s_, i in zip(vm['sets']['sets'], ids)]
             else:
                 alts = [o for o in rng.choice(vm['specific'])['ops']]
             for m in alts:
@@ -379,7 +401,8 @@ def gen_case(rng, tier):
     asm = ''.join(f'{k} = {v}\n' if v >= 0 else f'{k} = 0 - {-v}\n' for k, v in consts.items()) + ''.join(t + '\n' for _, t in stmts)
     base = {'op': 'stmt', 'regs': regs, 'gs': gz[0], 'ge': gz[1], 'env': [[k, v] for k, v in consts.items()],
             'variants': variants_m}
-    return {'isa': isa, 'asm': asm, 'base': base, 'stmts': [f for f, _ in stmts], 'nvar': nvar}
+    return {'isa': isa, 'asm': asm, 'base': base, 'stmts': [f for f, _ in stmts], 'nvar': nvar,
+            'shared': any(v.get('shared') for v in variants_m)}
 
 
 def gen_case_shadow(rng, tier):
@@ -458,7 +481,7 @@ def to_model(case):
 
 
 def judge(case, ir, mrs):
-    tags = ['nvar=%d' % case['nvar'], 'stmts=%d' % len(case['stmts'])] + (['register-text-vs-earlier-numeric-variant'] if case.get('shadow') else [])
+    tags = ['nvar=%d' % case['nvar'], 'stmts=%d' % len(case['stmts'])] + (['register-text-vs-earlier-numeric-variant'] if case.get('shadow') else []) + (['variants-share-one-operands-mapping'] if case.get('shared') else [])
     det = f'asm={case["asm"]!r} model={[{k: m[k] for k in m if k != "sel"} for m in mrs]}'[:900]
     if ir['status'] == 'timeout':
         return {'verdict': Verdict.VIOLATION, 'detail': 'no termination; ' + det, 'tags': tags}
